@@ -16,6 +16,7 @@ import (
 	"sync"
 
 	"github.com/klauspost/compress/zstd"
+	"github.com/specterops/dawgs/util/verifhook"
 )
 
 const (
@@ -165,6 +166,7 @@ func newCompressedJSONLinesWriter(path string, codec CompressionCodec, zstdLevel
 	if err != nil {
 		return nil, fmt.Errorf("open fragment temp file: %w", err)
 	}
+	verifhook.At("frag.tmp.open", tempPath)
 
 	hasher := sha256.New()
 	compressedCounter := &countingWriter{
@@ -206,6 +208,7 @@ func (s *compressedJSONLinesWriter) Write(value any) error {
 	}
 
 	s.count++
+	verifhook.At("frag.record", s.tempPath, s.count)
 
 	return nil
 }
@@ -232,12 +235,14 @@ func (s *compressedJSONLinesWriter) Close() (FileManifest, error) {
 
 		return FileManifest{}, fmt.Errorf("close fragment file: %w", err)
 	}
+	verifhook.At("frag.tmp.close", s.tempPath)
 
 	if err := os.Rename(s.tempPath, s.path); err != nil {
 		_ = os.Remove(s.tempPath)
 
 		return FileManifest{}, fmt.Errorf("rename fragment: %w", err)
 	}
+	verifhook.At("frag.rename", s.path)
 
 	return FileManifest{
 		Count:             s.count,
